@@ -217,6 +217,37 @@ BARE_SMILES = ['[Na]', '[K]', '[Li]', '[Mg]', '[Ca]', '[Al]', '[B]', '[Si]', '[P
                '[Na].[Cl]', '[S].C', '[Be]', '[Ga]', '[In]', '[Sb]', '[Bi]', '[Te]', '[Rb]', '[Cs]', '[Sr]', '[Ba]']
 
 
+def dative_smiles():
+    """one donor of every element of the non-metal list the bridge knows, bound to a metal by an order-8 bond, donor written
+    first and metal written first"""
+    donors = ['N', 'O', 'CP(C)C', 'CSC', 'C[Se]C', 'C[Te]C', 'C[As](C)C', 'C[Sb](C)C', 'Cl', 'Br', 'I', 'F', '[C-]#[O+]', 'C[Si](C)C',
+              'C[Ge](C)(C)C', '[H][H]', '[He]', '[Ne]', '[Ar]', '[Kr]', '[Xe]', 'CB(C)C']
+    metals = ['[Pd]', '[Pt+2]', '[Fe]', '[Cu+]', '[Ni]', '[Co]', '[Zn+2]', '[Ag+]']
+    out = []
+    for i, d in enumerate(donors):
+        mt = metals[i % len(metals)]
+        # the bond starts at the first atom of the donor string for 'N', 'O', halogens, noble gases; for the others at a
+        # branch written on the hetero atom
+        if d.startswith('C') and len(d) > 2 and '(' in d:
+            head, rest = d.split('(', 1)
+            out.append(f'{head}(~{mt})({rest}')
+            out.append(f'{mt}~{head[1:]}({head[0]})({rest}' if not head[1:].startswith('[') else f'{mt}~{head[1:]}(C)({rest}')
+        elif d in ('CSC', 'C[Se]C', 'C[Te]C'):
+            mid = d[1:-1]
+            out.append(f'C{mid}(~{mt})C')
+            out.append(f'{mt}~{mid}(C)C')
+        elif d == '[C-]#[O+]':
+            out.append(f'{mt}~[C-]#[O+]')
+            out.append(f'[O+]#[C-]~{mt}')
+        elif d == '[H][H]':
+            out.append(f'[H]([H])~{mt}')
+            out.append(f'{mt}~[H][H]')
+        else:
+            out.append(f'{d}~{mt}')
+            out.append(f'{mt}~{d}')
+    return out
+
+
 def perm_smiles():
     """one stereocentre / one double bond spelled in every substituent order, with and without ring closures"""
     out = []
@@ -606,12 +637,16 @@ def correspondence(ck, n_corpus):
     rng = random.Random(f'{ck.seed}:c20:corr')
     cs = Cases(ck)
     corr_tables(cs)
-    pool = [('stereo', x) for x in STEREO_SMILES] + [('metal', x) for x in METAL_SMILES] + [('atoms', x) for x in ATOM_SMILES] + \
-           [('bare', x) for x in BARE_SMILES[:8]] + [('perm', x) for x in corpus.sample(perm_smiles(), 40, ck.seed, 'c20perm')] + \
+    full = ck.tier == 'thorough'
+
+    def pick(seq, n, salt):
+        return list(seq) if full else corpus.sample(seq, n, ck.seed, 'c20:' + salt)
+    pool = [('stereo', x) for x in pick(STEREO_SMILES, 22, 'st')] + [('metal', x) for x in pick(METAL_SMILES, 12, 'me')] + \
+           [('atoms', x) for x in pick(ATOM_SMILES, 22, 'at')] + [('bare', x) for x in pick(BARE_SMILES, 3, 'ba')] + [('dative', x) for x in pick(dative_smiles(), 8, 'da')] + \
+           [('perm', x) for x in pick(perm_smiles(), 14, 'pe')] + \
            [('corpus', x) for x in corpus.sample(corpus.lipo(), n_corpus, ck.seed, 'c20corr')] + \
            [('corpus-stereo', x) for x in corpus.sample(corpus.stereo_smiles(), n_corpus // 2, ck.seed, 'c20corrs')]
     smiles_of = {}
-    full = ck.tier == 'thorough'
     for kind, smi in pool:
         forms = normal_forms(smi)
         ck.count('corr-input:' + kind + ('' if forms else ' (not accepted by chython)'))
@@ -673,3 +708,779 @@ def correspondence(ck, n_corpus):
         if smi and smi not in suspects:
             suspects.append(smi)
     return good, bad, (log1 + log2), suspects
+
+
+# ---------------------------------------------------------------------------------------------------------------
+# search: property-level oracles on the real code, with the real RDKit, independent of the Coq model
+
+# boron is left out on purpose: metal -> borane coordinate bonds exist, the direction of a B~metal bond is not judged here
+NONMETALS = {1, 2, 6, 7, 8, 9, 10, 14, 15, 16, 17, 18, 32, 33, 34, 35, 36, 51, 52, 53, 54, 85, 86}
+
+
+class Limited:
+    """at most `limit` counterexamples per category (text before the first ':' of the key)"""
+
+    def __init__(self, ck, limit=6):
+        self.ck = ck
+        self.seen = collections.Counter()
+        self.limit = limit
+
+    def counterexample(self, key, *a, **kw):
+        cat = key.split(':')[0]
+        self.seen[cat] += 1
+        self.ck.count('counterexamples:' + cat)
+        if self.seen[cat] <= self.limit or self.ck.match_known(key) is not None:
+            self.ck.counterexample(key, *a, **kw)
+
+
+def strip_maps(rd):
+    from rdkit import Chem
+    rd = Chem.Mol(rd)
+    for a in rd.GetAtoms():
+        a.SetAtomMapNum(0)
+    return rd
+
+
+def _reparsed(rd):
+    """canonical SMILES of the molecule RDKit reads from its own canonical SMILES of rd: merges plain hydrogen atoms and
+    re-perceives aromaticity on both sides of a comparison alike.  (Chem.RemoveHs is not used: it discards E/Z labels that were
+    set with SetStereo and no bond directions, which is how the bridge writes them.)"""
+    from rdkit import Chem
+    s = Chem.MolToSmiles(rd)
+    try:
+        again = Chem.MolFromSmiles(s)
+        if again is not None:
+            return Chem.MolToSmiles(again)
+    except Exception:
+        pass
+    return s
+
+
+def special_as_dative(rd):
+    """copy of rd in which every bond without an order (UNSPECIFIED: what RDKit reads for '~'; ZERO) between a metal and a
+    non-metal is a DATIVE bond non-metal -> metal (chython has one order, 8, for all three).  Bonds between two metals or
+    two non-metals are left alone; the second component says whether one was met."""
+    from rdkit import Chem
+    todo, odd = [], False
+    for bd in rd.GetBonds():
+        if bd.GetBondType() in (Chem.BondType.UNSPECIFIED, Chem.BondType.ZERO):
+            zb, ze = bd.GetBeginAtom().GetAtomicNum(), bd.GetEndAtom().GetAtomicNum()
+            if (zb in NONMETALS) == (ze in NONMETALS):
+                odd = True
+            else:
+                todo.append((bd.GetBeginAtomIdx(), bd.GetEndAtomIdx()) if zb in NONMETALS else (bd.GetEndAtomIdx(), bd.GetBeginAtomIdx()))
+        elif bd.GetBondType() == Chem.BondType.DATIVE and \
+                (bd.GetBeginAtom().GetAtomicNum() in NONMETALS) == (bd.GetEndAtom().GetAtomicNum() in NONMETALS):
+            odd = True
+    if not todo:
+        return rd, odd
+    rw = Chem.RWMol(rd)
+    for x, y in todo:
+        rw.RemoveBond(x, y)
+        rw.AddBond(x, y, Chem.BondType.DATIVE)
+    out = rw.GetMol()
+    try:
+        Chem.SanitizeMol(out)
+    except Exception:
+        out.UpdatePropertyCache(strict=False)
+    return out, odd
+
+
+def has_odd_special(rd):
+    return special_as_dative(rd)[1]
+
+
+def can_smiles(rd):
+    """RDKit canonical isomeric SMILES (atom maps cleared, hydrogens merged, aromaticity re-perceived, order-less bonds as
+    donor -> metal dative bonds)"""
+    return _reparsed(special_as_dative(strip_maps(rd))[0])
+
+
+def flat_smiles(rd):
+    from rdkit import Chem
+    rd = special_as_dative(strip_maps(rd))[0]
+    Chem.RemoveStereochemistry(rd)
+    return _reparsed(rd)
+
+
+def stereo_isomorphic(a, b):
+    """same molecule including configuration, decided by RDKit's chirality-aware graph matching in both directions (used
+    where canonical SMILES is not canonical: pseudo-asymmetric ring stereo)"""
+    a, b = special_as_dative(strip_maps(a))[0], special_as_dative(strip_maps(b))[0]
+    if a.GetNumAtoms() != b.GetNumAtoms() or a.GetNumBonds() != b.GetNumBonds():
+        return False
+    try:
+        return a.HasSubstructMatch(b, useChirality=True) and b.HasSubstructMatch(a, useChirality=True)
+    except Exception:
+        return False
+
+
+def same_stereo_molecule(a, b):
+    return can_smiles(a) == can_smiles(b) or (flat_smiles(a) == flat_smiles(b) and stereo_isomorphic(a, b))
+
+
+def reduce_stereo(rd, keep_atoms, keep_bonds):
+    """copy of rd in which only the listed atoms (indices) keep their chiral tag and only the listed bonds (index pairs) keep
+    their E/Z label"""
+    from rdkit import Chem
+    rd = Chem.Mol(rd)
+    for a in rd.GetAtoms():
+        if a.GetIdx() not in keep_atoms:
+            a.SetChiralTag(Chem.ChiralType.CHI_UNSPECIFIED)
+    for bd in rd.GetBonds():
+        if bd.GetStereo() != Chem.BondStereo.STEREONONE and frozenset((bd.GetBeginAtomIdx(), bd.GetEndAtomIdx())) not in keep_bonds:
+            bd.SetStereo(Chem.BondStereo.STEREONONE)
+    Chem.AssignStereochemistry(rd, cleanIt=False, force=True)
+    return rd
+
+
+def rd_stereo_elements(rd):
+    from rdkit import Chem
+    atoms = {a.GetIdx() for a in rd.GetAtoms() if a.GetChiralTag() in (Chem.ChiralType.CHI_TETRAHEDRAL_CW, Chem.ChiralType.CHI_TETRAHEDRAL_CCW)}
+    bonds = {frozenset((bd.GetBeginAtomIdx(), bd.GetEndAtomIdx())) for bd in rd.GetBonds()
+             if bd.GetStereo() in (Chem.BondStereo.STEREOE, Chem.BondStereo.STEREOZ)}
+    return atoms, bonds
+
+
+def ch_stereo_elements(m):
+    """what the bridge is asked to carry: labelled stereogenic tetrahedrons and labelled plain double bonds (chython also
+    labels allenes and cumulenes, which RDKit cannot hold: outside the property)"""
+    atoms = {n for n, a in m.atoms() if a.stereo is not None and n in m.stereogenic_tetrahedrons}
+    bonds = set()
+    reg = m.stereogenic_cis_trans
+    for n, mm, bd in m.bonds():
+        if bd.stereo is not None and ((n, mm) in reg or (mm, n) in reg):
+            bonds.add(frozenset((n, mm)))
+    return atoms, bonds
+
+
+def parse_ref(smi):
+    """RDKit's own reading of the string, hydrogens kept as atoms so that atom i is the i-th atom of the string"""
+    from rdkit import Chem
+    p = Chem.SmilesParserParams()
+    p.removeHs = False
+    try:
+        return Chem.MolFromSmiles(smi, p)
+    except Exception:
+        return None
+
+
+_MAPPINGS = {}
+
+
+def py_to(smi, form):
+    pre = {'kekule': 'm.kekule(); ', 'aromatic': 'm.kekule(); m.thiele(); ', 'plain': ''}.get(form, 'm.kekule(); m.thiele(); ')
+    if (smi, form) in _MAPPINGS:
+        mp = _MAPPINGS[(smi, form)]
+        pre += f'm.remap({ {k: 100000 + k for k in mp}!r}); m.remap({ {100000 + k: v for k, v in mp.items()}!r}); '
+    return (f"from chython import smiles; from chython.utils.rdkit import to_rdkit_molecule; from rdkit import Chem\n"
+            f"m = smiles({smi!r}); {pre}rd = to_rdkit_molecule(m)\n"
+            f"print(str(m), '->', Chem.MolToSmiles(rd), [(a.GetSymbol(), a.GetTotalNumHs(), a.GetNumRadicalElectrons()) for a in rd.GetAtoms()])")
+
+
+def py_from(smi):
+    return (f"from chython import smiles; from chython.utils.rdkit import from_rdkit_molecule; from rdkit import Chem\n"
+            f"rd = Chem.MolFromSmiles({smi!r}); m = from_rdkit_molecule(rd)\n"
+            f"print(Chem.MolToSmiles(rd), '->', str(m), [(a.atomic_symbol, a.implicit_hydrogens, a.is_radical) for _, a in m.atoms()])")
+
+
+def oracle_to(rep, smi, form, m, order, ref):
+    """to_rdkit_molecule(m) against m itself (attributes, bonds, coordinates, atom map) and against RDKit's reading `ref` of
+    the string m was made from; order[i] = chython number of the i-th atom of the string.  Returns the RDKit molecule."""
+    from rdkit import Chem
+    from chython.utils.rdkit import to_rdkit_molecule
+    ck = rep.ck
+    key = f'{smi}|{form}'
+    tap = TapTo()
+    rd = tap.run(m)
+    if rd is None:
+        e = tap.exc
+        ck.count('search-to:raises ' + type(e).__name__)
+        if tap.pre is not None and any(t[2] == 'DATIVE' for t in tap.pre['bonds']):
+            # RDKit rejects the coordinate-bond reading of a molecule with order-8 bonds: not accepted by both toolkits;
+            # the direction the bridge chose is still judged
+            for bi, ei, tname in tap.pre['bonds']:
+                if tname == 'DATIVE' and tap.pre['atoms'][bi][0] not in NONMETALS and tap.pre['atoms'][ei][0] in NONMETALS:
+                    rep.counterexample(f'to-dative:{key}', 'a coordinate bond between a metal and a non-metal is written as metal -> non-metal',
+                                       {'smiles': smi, 'form': form}, 'metal -> non-metal', 'donor -> metal', 'periodic table', replay_py=py_to(smi, form))
+            return None
+        # both toolkits accept the molecule (chython built it, RDKit read the string): is it the bridge's construction
+        # that RDKit rejects?  RDKit re-reading chython's own spelling decides.
+        try:
+            again = Chem.MolFromSmiles(str(m))
+        except Exception:
+            again = None
+        if again is not None:
+            rep.counterexample(f'to-raises:{key}', f'to_rdkit_molecule raises {type(e).__name__} on a molecule both toolkits accept',
+                               {'smiles': smi, 'form': form}, f'{type(e).__name__}: {e}'[:200], 'an RDKit molecule', 'RDKit reads chython\'s own SMILES of it',
+                               replay_py=py_to(smi, form))
+        return None
+    by_map = {}
+    for a in rd.GetAtoms():
+        by_map.setdefault(a.GetAtomMapNum(), []).append(a)
+    nums = [n for n, _ in m.atoms()]
+    if rd.GetNumAtoms() != len(nums) or sorted(by_map) != sorted(nums) or any(len(v) != 1 for v in by_map.values()):
+        rep.counterexample(f'to-atom-map:{key}', 'RDKit atom map numbers are not the chython atom numbers', {'smiles': smi, 'form': form},
+                           sorted(by_map), sorted(nums), 'by construction', replay_py=py_to(smi, form))
+        return rd
+    conf = rd.GetConformer(0) if rd.GetNumConformers() else None
+    for n, a in m.atoms():
+        ra = by_map[n][0]
+        got = (ra.GetAtomicNum(), ra.GetIsotope(), ra.GetFormalCharge(), ra.GetNumRadicalElectrons(), ra.GetTotalNumHs())
+        want = (a.atomic_number, a.isotope or 0, a.charge, 1 if a.is_radical else 0, a.implicit_hydrogens)
+        if got != want:
+            if got[:4] == want[:4] and ra.GetNumExplicitHs() == want[4] and ra.GetNumImplicitHs() > 0:
+                rep.counterexample('to-rdkit-adds-implicit-hydrogens', f'RDKit adds implicit hydrogens to atom {n} ({a.atomic_symbol}): the hydrogen count is not preserved',
+                                   {'smiles': smi, 'form': form, 'atom': n}, got, want, 'atom by atom', replay_py=py_to(smi, form))
+            else:
+                rep.counterexample(f'to-atom:{key}:{order.index(n)}', f'attributes (Z, isotope, charge, radical electrons, hydrogens) of atom {n} differ after to_rdkit_molecule',
+                                   {'smiles': smi, 'form': form, 'atom': n}, got, want, 'atom by atom', replay_py=py_to(smi, form))
+        if conf is None or conf.Is3D():
+            rep.counterexample(f'to-xy:{key}', 'first RDKit conformer is missing or marked 3D', {'smiles': smi, 'form': form}, None, '2D conformer',
+                               'by construction', replay_py=py_to(smi, form))
+        else:
+            p = conf.GetAtomPosition(ra.GetIdx())
+            if (bits(p.x), bits(p.y), bits(p.z)) != (bits(a.x), bits(a.y), 0):
+                rep.counterexample(f'to-xy:{key}', f'coordinates of atom {n} differ', {'smiles': smi, 'form': form, 'atom': n}, (p.x, p.y, p.z), (a.x, a.y, 0.0),
+                                   'atom by atom', replay_py=py_to(smi, form))
+    nb = 0
+    for n, mm, bd in m.bonds():
+        nb += 1
+        rb = rd.GetBondBetweenAtoms(by_map[n][0].GetIdx(), by_map[mm][0].GetIdx())
+        o = int(bd)
+        if rb is None:
+            rep.counterexample(f'to-bond:{key}', f'bond {n}-{mm} is missing in the RDKit molecule', {'smiles': smi, 'form': form}, None, o, 'bond by bond', replay_py=py_to(smi, form))
+            continue
+        t = rb.GetBondType().name
+        good = {1: ('SINGLE', 'AROMATIC'), 2: ('DOUBLE', 'AROMATIC'), 3: ('TRIPLE',), 4: ('AROMATIC', 'SINGLE', 'DOUBLE'), 8: ('DATIVE',)}[o]
+        if t not in good:    # RDKit re-perceives aromaticity: ring bonds may change between 1/2 and aromatic, nothing else
+            rep.counterexample(f'to-bond:{key}', f'bond {n}-{mm} of order {o} became {t}', {'smiles': smi, 'form': form}, t, good, 'bond by bond', replay_py=py_to(smi, form))
+        if o == 8:
+            zb, ze = rb.GetBeginAtom().GetAtomicNum(), rb.GetEndAtom().GetAtomicNum()
+            ck.count('search-to:dative ' + ('nonmetal->metal' if zb in NONMETALS and ze not in NONMETALS else 'other'))
+            if zb not in NONMETALS and ze in NONMETALS:
+                rep.counterexample(f'to-dative:{key}', 'a coordinate bond between a metal and a non-metal is written as metal -> non-metal',
+                                   {'smiles': smi, 'form': form}, f'{rb.GetBeginAtom().GetSymbol()}->{rb.GetEndAtom().GetSymbol()}', 'donor -> metal', 'periodic table', replay_py=py_to(smi, form))
+    if nb != rd.GetNumBonds():
+        rep.counterexample(f'to-bond:{key}', 'number of bonds differs', {'smiles': smi, 'form': form}, rd.GetNumBonds(), nb, 'count', replay_py=py_to(smi, form))
+    # configuration: every label chython holds on a centre RDKit can express arrives, and nothing is invented
+    c_atoms, c_bonds = ch_stereo_elements(m)
+    r_atoms, r_bonds = rd_stereo_elements(rd)
+    idx = {n: by_map[n][0].GetIdx() for n in nums}
+    want_atoms = {idx[n] for n in c_atoms}
+    want_bonds = {frozenset(idx[x] for x in p) for p in c_bonds}
+    if r_atoms - want_atoms or r_bonds - want_bonds:
+        rep.counterexample(f'to-stereo-invented:{key}', 'the RDKit molecule has configuration on centres the chython molecule has none on',
+                           {'smiles': smi, 'form': form}, [sorted(r_atoms - want_atoms), [sorted(x) for x in r_bonds - want_bonds]], 'none', 'label by label', replay_py=py_to(smi, form))
+    lost_a, lost_b = want_atoms - r_atoms, want_bonds - r_bonds
+    ck.count('search-to:stereo elements carried', len(want_atoms & r_atoms) + len(want_bonds & r_bonds))
+    # a label can legitimately vanish only where RDKit itself sees no stereo element (its own reading of the string has none either)
+    if ref is not None:
+        f_atoms, f_bonds = rd_stereo_elements(ref)
+        pos = {n: i for i, n in enumerate(order)}
+        ref_of = {idx[n]: pos[n] for n in nums}
+        lost_a = {i for i in lost_a if ref_of[i] in f_atoms}
+        lost_b = {p for p in lost_b if frozenset(ref_of[i] for i in p) in f_bonds}
+    if lost_a or lost_b:
+        rep.counterexample(f'to-stereo-lost:{key}', 'a configuration label of the chython molecule does not arrive in the RDKit molecule',
+                           {'smiles': smi, 'form': form}, [sorted(lost_a), [sorted(x) for x in lost_b]], 'all labels', 'label by label', replay_py=py_to(smi, form))
+    if ref is None:
+        return rd
+    # the molecule as a whole: RDKit canonical SMILES against RDKit's reading of the string, restricted to the
+    # configuration chython holds (labels the chython reader dropped are not the bridge's business)
+    keep_a = {pos[n] for n in c_atoms}
+    keep_b = {frozenset(pos[x] for x in p) for p in c_bonds}
+    red = reduce_stereo(ref, keep_a, keep_b)
+    if can_smiles(rd) == can_smiles(red):
+        ck.count('search-to:canonical SMILES equal')
+        return rd
+    if has_odd_special(rd) or has_odd_special(red):
+        ck.count('search-to:undecided (order-less bond between two metals / two non-metals)')
+        return rd
+    try:
+        again = Chem.MolFromSmiles(format(m, 'h') if False else str(m))
+    except Exception:
+        again = None
+    if flat_smiles(rd) != flat_smiles(red):
+        if again is not None and flat_smiles(again) == flat_smiles(rd):
+            ck.count('search-to:noise: the two SMILES readers disagree on the constitution')
+            return rd
+        if any(by_map[n][0].GetNumImplicitHs() for n in nums):
+            return rd          # hydrogens added by RDKit: already reported atom by atom
+        rep.counterexample(f'to-structure:{key}', 'RDKit canonical SMILES (without configuration) of to_rdkit_molecule differs from RDKit\'s reading of the string',
+                           {'smiles': smi, 'form': form}, flat_smiles(rd), flat_smiles(red), 'RDKit canonical SMILES', replay_py=py_to(smi, form))
+        return rd
+    if stereo_isomorphic(rd, red):
+        ck.count('search-to:canonical SMILES differ, chirality-aware isomorphism holds')
+        return rd
+    # compare on the stereo elements both molecules specify (presence was judged above)
+    common_a = {i for i in r_atoms if ref_of[i] in rd_stereo_elements(red)[0]}
+    common_b = {p for p in r_bonds if frozenset(ref_of[i] for i in p) in rd_stereo_elements(red)[1]}
+    rd2 = reduce_stereo(rd, common_a, common_b)
+    red2 = reduce_stereo(red, {ref_of[i] for i in common_a}, {frozenset(ref_of[i] for i in p) for p in common_b})
+    if same_stereo_molecule(rd2, red2):
+        ck.count('search-to:equal on the stereo elements both hold')
+        return rd
+    if again is not None and same_stereo_molecule(again, rd):
+        ck.count('search-to:noise: the two SMILES readers disagree on the configuration')
+        return rd
+    rep.counterexample(f'to-stereo:{key}', 'configuration after to_rdkit_molecule differs from RDKit\'s reading of the string',
+                       {'smiles': smi, 'form': form}, can_smiles(rd), can_smiles(red), 'RDKit canonical isomeric SMILES + chirality-aware isomorphism',
+                       replay_py=py_to(smi, form))
+    return rd
+
+
+def normalised(m):
+    """Kekule then Thiele form (the library's own normal form), or None"""
+    try:
+        c = m.copy()
+        c.kekule()
+        c.thiele()
+        return c
+    except Exception:
+        return None
+
+
+def kekule_smiles(m):
+    try:
+        c = m.copy()
+        c.kekule()
+        return str(c)
+    except Exception:
+        return None
+
+
+def aligned(m, rd):
+    """chython atom i+1 and RDKit atom i are the same atom of the string (same count, same elements in the same order)"""
+    nums = [n for n, _ in m.atoms()]
+    return nums == list(range(1, rd.GetNumAtoms() + 1)) and all(m.atom(i + 1).atomic_number == a.GetAtomicNum() for i, a in enumerate(rd.GetAtoms()))
+
+
+def oracle_from(rep, smi, variant, rd, m_ref):
+    """from_rdkit_molecule(rd) against rd itself and against chython's own reading m_ref of the same string"""
+    from rdkit import Chem
+    from chython.utils.rdkit import from_rdkit_molecule
+    ck = rep.ck
+    key = f'{smi}|{variant}'
+    inp = {'smiles': smi, 'rdkit_variant': variant}
+    try:
+        m2 = from_rdkit_molecule(rd)
+    except Exception as e:
+        ck.count('search-from:raises ' + type(e).__name__)
+        if m_ref is not None:
+            rep.counterexample(f'from-raises:{key}', f'from_rdkit_molecule raises {type(e).__name__} on a molecule both toolkits accept', inp,
+                               f'{type(e).__name__}: {e}'[:200], 'a molecule', 'chython reads the same SMILES', replay_py=py_from(smi))
+        return None
+    n_at = rd.GetNumAtoms()
+    if [n for n, _ in m2.atoms()] != list(range(1, n_at + 1)):
+        rep.counterexample(f'from-atoms:{key}', 'atoms are not numbered 1..N in RDKit index order', inp, [n for n, _ in m2.atoms()][:20], f'1..{n_at}', 'count', replay_py=py_from(smi))
+        return m2
+    confs = rd.GetConformers()
+    for i, ra in enumerate(rd.GetAtoms()):
+        a = m2.atom(i + 1)
+        nrad = ra.GetNumRadicalElectrons()
+        got = (a.atomic_number, a.isotope or 0, a.charge, a.is_radical, a.implicit_hydrogens, getattr(a, '_parsed_mapping', None))
+        want = (ra.GetAtomicNum(), ra.GetIsotope(), ra.GetFormalCharge(), nrad > 0, ra.GetTotalNumHs(), ra.GetAtomMapNum())
+        if got != want:
+            rep.counterexample(f'from-atom:{key}:{i}', f'attributes (Z, isotope, charge, radical, hydrogens, map number) of atom {i + 1} differ after from_rdkit_molecule',
+                               inp, got, want, 'atom by atom', replay_py=py_from(smi))
+        if nrad > 1:
+            rep.counterexample('from-rdkit-radical-multiplicity', f'atom {i + 1} has {nrad} radical electrons in RDKit and is_radical=True in chython: the multiplicity is lost',
+                               inp, 'is_radical=True', f'{nrad} radical electrons', 'atom by atom', replay_py=py_from(smi))
+        if confs:
+            p = confs[0].GetAtomPosition(i)
+            if (bits(a.x), bits(a.y)) != (bits(p.x), bits(p.y)):
+                rep.counterexample(f'from-xy:{key}', f'coordinates of atom {i + 1} differ', inp, (a.x, a.y), (p.x, p.y), 'atom by atom', replay_py=py_from(smi))
+    want3 = [[tuple(bits(v) for v in (p.x, p.y, p.z)) for p in (c.GetAtomPosition(i) for i in range(n_at))] for c in confs if c.Is3D()]
+    got3 = [[tuple(bits(v) for v in c[n]) for n in sorted(c)] for c in (m2._conformers if hasattr(m2, '_conformers') else [])]
+    if want3 != got3:
+        rep.counterexample(f'from-conformers:{key}', '3D conformers differ', inp, len(got3), len(want3), 'conformer by conformer', replay_py=py_from(smi))
+    nb = sum(1 for _ in m2.bonds())
+    if nb != rd.GetNumBonds():
+        rep.counterexample(f'from-bond:{key}', 'number of bonds differs', inp, nb, rd.GetNumBonds(), 'count', replay_py=py_from(smi))
+    for bd in rd.GetBonds():
+        n, mm = bd.GetBeginAtomIdx() + 1, bd.GetEndAtomIdx() + 1
+        try:
+            o = int(m2.bond(n, mm))
+        except Exception:
+            o = None
+        if o != ORDER_OF_TYPE.get(bd.GetBondType().name):
+            rep.counterexample(f'from-bond:{key}', f'bond {n}-{mm} of type {bd.GetBondType().name} became order {o}', inp, o, ORDER_OF_TYPE.get(bd.GetBondType().name),
+                               'bond by bond', replay_py=py_from(smi))
+    # configuration
+    r_atoms, r_bonds = rd_stereo_elements(rd)
+    c_atoms = {n - 1 for n, a in m2.atoms() if a.stereo is not None and n in m2.stereogenic_tetrahedrons}
+    c_all = {n - 1 for n, a in m2.atoms() if a.stereo is not None}
+    c_bonds = {frozenset((n - 1, mm - 1)) for n, mm, bd in m2.bonds() if bd.stereo is not None}
+    if c_all - r_atoms or c_bonds - r_bonds:
+        rep.counterexample(f'from-stereo-invented:{key}', 'the chython molecule has configuration labels the RDKit molecule has none for', inp,
+                           [sorted(c_all - r_atoms), [sorted(x) for x in c_bonds - r_bonds]], 'none', 'label by label', replay_py=py_from(smi))
+    ck.count('search-from:stereo elements carried', len(c_atoms & r_atoms) + len(c_bonds & r_bonds))
+    al = m_ref is not None and aligned(m_ref, rd)
+    if al:
+        # what chython itself holds when it reads the string decides which RDKit labels are expected to arrive
+        e_atoms, e_bonds = ch_stereo_elements(m_ref)
+        e_atoms = {n - 1 for n in e_atoms}
+        e_bonds = {frozenset(x - 1 for x in p) for p in e_bonds}
+        lost_a, lost_b = (e_atoms & r_atoms) - c_atoms, (e_bonds & r_bonds) - c_bonds
+        if lost_a or lost_b:
+            rep.counterexample(f'from-stereo-lost:{key}', 'a configuration label RDKit holds (and chython keeps when it reads the string itself) does not arrive', inp,
+                               [sorted(lost_a), [sorted(x) for x in lost_b]], 'all labels', 'label by label', replay_py=py_from(smi))
+    if m_ref is None:
+        return m2
+    # the molecule as a whole: the library's canonical string against its own reading of the string
+    n2, nr = normalised(m2), normalised(m_ref)
+    if n2 is not None and nr is not None and str(n2) == str(nr):
+        ck.count('search-from:canonical string equal')
+        return m2
+    ks = kekule_smiles(m2)
+    try:
+        again = Chem.MolFromSmiles(ks) if ks else None
+    except Exception:
+        again = None
+    if again is None:
+        ck.count('search-from:undecided (RDKit does not read chython\'s spelling)')
+        return m2
+    keep_a, keep_b = (e_atoms, e_bonds) if al else (c_atoms, c_bonds)
+    red = reduce_stereo(rd, keep_a, keep_b)
+    if same_stereo_molecule(again, red):
+        ck.count('search-from:canonical strings differ, RDKit judges the same molecule')
+        return m2
+    if flat_smiles(again) != flat_smiles(red):
+        rep.counterexample(f'from-structure:{key}', 'constitution after from_rdkit_molecule differs (chython canonical string and RDKit re-reading both disagree)', inp,
+                           flat_smiles(again), flat_smiles(red), 'chython canonical string; RDKit canonical SMILES of the re-read molecule', replay_py=py_from(smi))
+    else:
+        # equal on the elements both hold?
+        ga, gb = rd_stereo_elements(again)
+        if len(ga) < len(rd_stereo_elements(red)[0]) or len(gb) < len(rd_stereo_elements(red)[1]):
+            ck.count('search-from:undecided (fewer stereo elements after re-reading: perception differs)')
+            return m2
+        rep.counterexample(f'from-stereo:{key}', 'configuration after from_rdkit_molecule differs (chython canonical string and RDKit re-reading both disagree)', inp,
+                           can_smiles(again), can_smiles(red), 'chython canonical string; RDKit canonical isomeric SMILES + chirality-aware isomorphism', replay_py=py_from(smi))
+    return m2
+
+
+def oracle_roundtrip_chython(rep, smi, form, m, rd):
+    """from_rdkit_molecule(to_rdkit_molecule(m)) against m"""
+    from chython.utils.rdkit import from_rdkit_molecule
+    ck = rep.ck
+    key = f'{smi}|{form}'
+    inp = {'smiles': smi, 'form': form}
+    rp = py_to(smi, form) + "\nfrom chython.utils.rdkit import from_rdkit_molecule; b = from_rdkit_molecule(rd); print(str(b), b == m)"
+    try:
+        m3 = from_rdkit_molecule(rd)
+    except Exception as e:
+        rep.counterexample(f'rt-chython-raises:{key}', f'from_rdkit_molecule raises {type(e).__name__} on the result of to_rdkit_molecule', inp, type(e).__name__, 'a molecule', 'round trip', replay_py=rp)
+        return
+    nums = [n for n, _ in m.atoms()]
+    back = {n: i + 1 for i, n in enumerate(nums)}
+    if [n for n, _ in m3.atoms()] != list(range(1, len(nums) + 1)):
+        rep.counterexample(f'rt-chython-atoms:{key}', 'atom count differs after the round trip', inp, len(m3), len(nums), 'round trip', replay_py=rp)
+        return
+    added = False
+    for n, a in m.atoms():
+        c = m3.atom(back[n])
+        got = (c.atomic_number, c.isotope, c.charge, c.is_radical, c.implicit_hydrogens, bits(c.x), bits(c.y), getattr(c, '_parsed_mapping', None))
+        want = (a.atomic_number, a.isotope, a.charge, a.is_radical, a.implicit_hydrogens, bits(a.x), bits(a.y), n)
+        if got != want:
+            if got[:4] == want[:4] and got[5:] == want[5:] and got[4] > want[4]:
+                added = True
+                rep.counterexample('to-rdkit-adds-implicit-hydrogens', 'RDKit adds implicit hydrogens: the hydrogen count is not preserved', inp, got[4], want[4], 'round trip', replay_py=rp)
+            else:
+                rep.counterexample(f'rt-chython-atom:{key}:{back[n]}', f'atom {n} differs after to_rdkit_molecule then from_rdkit_molecule '
+                                   '(Z, isotope, charge, radical, hydrogens, x, y, map number)', inp, got, want, 'round trip', replay_py=rp)
+    b0 = {frozenset((back[n], back[mm])): int(bd) for n, mm, bd in m.bonds()}
+    b3 = {frozenset((n, mm)): int(bd) for n, mm, bd in m3.bonds()}
+    if set(b0) != set(b3) or any(b0[k] != b3[k] and not ({b0[k], b3[k]} <= {1, 2, 4}) for k in b0):
+        rep.counterexample(f'rt-chython-bonds:{key}', 'bonds differ after the round trip (other than single/double <-> aromatic)', inp,
+                           sorted((sorted(k), v) for k, v in b3.items())[:30], sorted((sorted(k), v) for k, v in b0.items())[:30], 'round trip', replay_py=rp)
+    # labels, compared in one common neighbour order through the library's own sign translation
+    c_atoms, c_bonds = ch_stereo_elements(m)
+    r_atoms, r_bonds = rd_stereo_elements(rd)
+    idx = {a.GetAtomMapNum(): a.GetIdx() for a in rd.GetAtoms()}
+    for n in c_atoms:
+        if idx.get(n) not in r_atoms:
+            continue                       # judged by oracle_to
+        env = list(m._bonds[n])
+        try:
+            s0 = m._translate_tetrahedron_sign(n, env)
+            s3 = m3._translate_tetrahedron_sign(back[n], [back[x] for x in env])
+        except KeyError:
+            s3 = None
+        if s0 != s3:
+            rep.counterexample(f'rt-chython-stereo:{key}:{back[n]}', f'tetrahedral label of atom {n} is {"lost" if s3 is None else "inverted"} after the round trip', inp, s3, s0,
+                               'round trip, both labels translated to one neighbour order', replay_py=rp)
+    reg = m.stereogenic_cis_trans
+    for p in c_bonds:
+        if frozenset(idx.get(x) for x in p) not in r_bonds:
+            continue
+        (n, mm) = next(k for k in reg if frozenset(k) == p)
+        n0, n1 = reg[(n, mm)][:2]
+        try:
+            s0 = m._translate_cis_trans_sign(n, mm, n0, n1)
+            s3 = m3._translate_cis_trans_sign(back[n], back[mm], back[n0], back[n1])
+        except KeyError:
+            s3 = None
+        if s0 != s3:
+            rep.counterexample(f'rt-chython-stereo:{key}:{back[n]}-{back[mm]}', f'double-bond label of {n}={mm} is {"lost" if s3 is None else "inverted"} after the round trip', inp, s3, s0,
+                               'round trip, both labels translated to the same reference atoms', replay_py=rp)
+    n0, n3 = normalised(m), normalised(m3)
+    if n0 is not None and n3 is not None:
+        if str(n0) == str(n3):
+            ck.count('search-rt-chython:canonical string equal')
+        elif not added:
+            ck.count('search-rt-chython:canonical strings differ (judged atom by atom and label by label)')
+
+
+def oracle_roundtrip_rdkit(rep, smi, variant, rd, m2):
+    """to_rdkit_molecule(from_rdkit_molecule(rd)) against rd"""
+    from chython.utils.rdkit import to_rdkit_molecule
+    ck = rep.ck
+    key = f'{smi}|{variant}'
+    inp = {'smiles': smi, 'rdkit_variant': variant}
+    rp = py_from(smi) + "\nfrom chython.utils.rdkit import to_rdkit_molecule; r2 = to_rdkit_molecule(m, keep_mapping=False); print(Chem.MolToSmiles(r2))"
+    if any(a.implicit_hydrogens is None for _, a in m2.atoms()):
+        ck.count('search-rt-rdkit:skipped (hydrogen count missing)')
+        return
+    try:
+        rd2 = to_rdkit_molecule(m2)
+    except Exception as e:
+        ck.count('search-rt-rdkit:raises ' + type(e).__name__)
+        if any(bd.GetBondType().name in ('ZERO', 'UNSPECIFIED') for bd in rd.GetBonds()):
+            rep.counterexample('rt-rdkit-orderless-bond-becomes-dative', 'an RDKit ZERO/UNSPECIFIED bond comes back as a DATIVE bond (and RDKit rejects the valence)', inp,
+                               f'{type(e).__name__}', 'the same molecule', 'round trip', replay_py=rp)
+            return
+        rep.counterexample(f'rt-rdkit-raises:{key}', f'to_rdkit_molecule raises {type(e).__name__} on the result of from_rdkit_molecule', inp, f'{type(e).__name__}: {e}'[:200],
+                           'a molecule', 'round trip', replay_py=rp)
+        return
+    if rd2.GetNumAtoms() != rd.GetNumAtoms() or rd2.GetNumBonds() != rd.GetNumBonds():
+        rep.counterexample(f'rt-rdkit-atoms:{key}', 'atom or bond count differs after the round trip', inp, (rd2.GetNumAtoms(), rd2.GetNumBonds()),
+                           (rd.GetNumAtoms(), rd.GetNumBonds()), 'round trip', replay_py=rp)
+        return
+    confs = rd.GetConformers()
+    for i, ra in enumerate(rd.GetAtoms()):
+        rb = rd2.GetAtomWithIdx(i)
+        got = (rb.GetAtomicNum(), rb.GetIsotope(), rb.GetFormalCharge(), rb.GetNumRadicalElectrons(), rb.GetTotalNumHs(), rb.GetAtomMapNum())
+        want = (ra.GetAtomicNum(), ra.GetIsotope(), ra.GetFormalCharge(), min(ra.GetNumRadicalElectrons(), 1), ra.GetTotalNumHs(), i + 1)
+        if got != want:
+            if got[:4] == want[:4] and got[5] == want[5] and rb.GetNumExplicitHs() == want[4] and rb.GetNumImplicitHs() > 0:
+                rep.counterexample('to-rdkit-adds-implicit-hydrogens', 'RDKit adds implicit hydrogens: the hydrogen count is not preserved', inp, got[4], want[4], 'round trip', replay_py=rp)
+            else:
+                rep.counterexample(f'rt-rdkit-atom:{key}:{i}', f'RDKit atom {i} differs after from_rdkit_molecule then to_rdkit_molecule '
+                                   '(Z, isotope, charge, radical electrons capped at 1, hydrogens, map number = new atom number)', inp, got, want, 'round trip', replay_py=rp)
+        if confs:
+            p, q = confs[0].GetAtomPosition(i), rd2.GetConformer(0).GetAtomPosition(i)
+            if (bits(p.x), bits(p.y)) != (bits(q.x), bits(q.y)) or bits(q.z) != 0:
+                rep.counterexample(f'rt-rdkit-xy:{key}', f'coordinates of atom {i} differ after the round trip', inp, (q.x, q.y, q.z), (p.x, p.y, 0.0), 'round trip', replay_py=rp)
+    for bd in rd.GetBonds():
+        b2 = rd2.GetBondBetweenAtoms(bd.GetBeginAtomIdx(), bd.GetEndAtomIdx())
+        t1, t2 = bd.GetBondType().name, b2.GetBondType().name if b2 is not None else None
+        if t1 == t2 or ({t1, t2} <= {'SINGLE', 'DOUBLE', 'AROMATIC'}):
+            continue
+        if t1 in ('ZERO', 'UNSPECIFIED') and t2 == 'DATIVE':
+            rep.counterexample('rt-rdkit-orderless-bond-becomes-dative', f'an RDKit {t1} bond comes back as a DATIVE bond', inp, t2, t1, 'round trip', replay_py=rp)
+        else:
+            rep.counterexample(f'rt-rdkit-bond:{key}', f'bond {bd.GetBeginAtomIdx()}-{bd.GetEndAtomIdx()} of type {t1} comes back as {t2}', inp, t2, t1, 'round trip', replay_py=rp)
+    c_atoms = {n - 1 for n, a in m2.atoms() if a.stereo is not None and n in m2.stereogenic_tetrahedrons}
+    c_bonds = {frozenset((n - 1, mm - 1)) for n, mm, bd in m2.bonds() if bd.stereo is not None}
+    red = reduce_stereo(rd, c_atoms, c_bonds)            # what arrived in chython was judged by oracle_from
+    if same_stereo_molecule(rd2, red):
+        ck.count('search-rt-rdkit:same molecule (canonical SMILES / chirality-aware isomorphism)')
+        return
+    if any(a.GetNumRadicalElectrons() > 1 for a in rd.GetAtoms()) or any(a.GetNumImplicitHs() for a in rd2.GetAtoms()):
+        return        # reported above
+    if has_odd_special(rd) or has_odd_special(rd2):
+        ck.count('search-rt-rdkit:undecided (order-less bond between two metals / two non-metals)')
+        return
+    if flat_smiles(rd2) != flat_smiles(red):
+        rep.counterexample(f'rt-rdkit-structure:{key}', 'constitution differs after from_rdkit_molecule then to_rdkit_molecule', inp, flat_smiles(rd2), flat_smiles(red),
+                           'RDKit canonical SMILES', replay_py=rp)
+        return
+    a2, b2 = rd_stereo_elements(rd2)
+    ar, br_ = rd_stereo_elements(red)
+    if a2 != ar or b2 != br_:
+        ck.count('search-rt-rdkit:stereo element sets differ (RDKit perception on the rebuilt molecule)')
+        common_a, common_b = a2 & ar, b2 & br_
+        if same_stereo_molecule(reduce_stereo(rd2, common_a, common_b), reduce_stereo(red, common_a, common_b)):
+            return
+    rep.counterexample(f'rt-rdkit-stereo:{key}', 'configuration differs after from_rdkit_molecule then to_rdkit_molecule', inp, can_smiles(rd2), can_smiles(red),
+                       'RDKit canonical isomeric SMILES + chirality-aware isomorphism', replay_py=rp)
+
+
+def respelled(m, seed):
+    """the same molecule read back from a random-order SMILES written by the library: other atom order, other neighbour
+    orders, other ring-closure positions.  Returns (string, Kekule form, aromatic form) or None."""
+    random.seed(seed)            # format(m, 'r') draws from the global generator
+    try:
+        s2 = format(m, 'r')
+    except Exception:
+        return None
+    f = normal_forms(s2)
+    if f is None or str(f[1]) != str(normalised(m) or ''):
+        return None              # the SMILES writer/reader pair is C01-C03's business
+    return s2, f[0], f[1]
+
+
+def undirected(rd):
+    """copy with every DATIVE bond replaced by a ZERO bond (to tell a change of direction from any other change)"""
+    from rdkit import Chem
+    rw = Chem.RWMol(strip_maps(rd))
+    for bd in rw.GetBonds():
+        if bd.GetBondType() == Chem.BondType.DATIVE:
+            bd.SetBondType(Chem.BondType.ZERO)
+    out = rw.GetMol()
+    out.UpdatePropertyCache(strict=False)
+    return Chem.MolToSmiles(out)
+
+
+def shuffle_renumber(mol, rng, sparse=False):
+    """a renumbered copy and the mapping old number -> new number"""
+    nums = list(mol._atoms)
+    new = rng.sample(range(1, 3 * len(nums) + 2), len(nums)) if sparse else rng.sample(nums, len(nums))
+    c = mol.copy()
+    c.remap({n: 100000 + n for n in nums})
+    c.remap({100000 + n: v for n, v in zip(nums, new)})
+    return c, dict(zip(nums, new))
+
+
+def search_one(rep, kind, smi, rng):
+    from rdkit import Chem
+    ck = rep.ck
+    ref = parse_ref(smi)
+    forms = normal_forms(smi)
+    if ref is None or forms is None:
+        ck.count('search-input:' + kind + (' (RDKit does not read it)' if ref is None else ' (chython does not accept it)'))
+        ck.case(('search', smi), nontrivial=False)
+        return
+    ck.count('search-input:' + kind)
+    kek, aro = forms
+    n_st = sum(len(x) for x in ch_stereo_elements(aro))
+    ck.count(f'search-stereo-elements={min(n_st, 6)}')
+    ck.case(('search', smi), nontrivial=True)
+    nums = list(aro._atoms)
+    if nums != list(range(1, len(nums) + 1)) or ref.GetNumAtoms() != len(nums):
+        ref_al = None                      # cannot align the two readings atom by atom: judge the bridge against m only
+    else:
+        ref_al = ref
+    todo = [('aromatic', aro, nums)]
+    if str(kek) != str(aro):
+        todo.append(('kekule', kek, nums))
+    ren, mp = shuffle_renumber(aro, rng, sparse=rng.random() < 0.5)
+    set_coords(ren, rng)
+    _MAPPINGS[(smi, 'renumbered')] = mp
+    todo.append(('renumbered', ren, [mp[n] for n in nums]))
+    cans = []
+    for form, m, order in todo:
+        rd = oracle_to(rep, smi, form, m, order, ref_al)
+        ck.case(('to', smi, form))
+        if rd is not None:
+            cans.append((form, rd))
+            oracle_roundtrip_chython(rep, smi, form, m, rd)
+    for k in range(2 if n_st or any(int(bd) == 8 for *_, bd in aro.bonds()) else 1):
+        rs = respelled(aro, f'{ck.seed}:{smi}:{k}')
+        if rs is None:
+            ck.count('search-input:respelling not usable')
+            continue
+        s2, _, aro2 = rs
+        ref2 = parse_ref(s2)
+        n2 = list(aro2._atoms)
+        if ref2 is not None and (n2 != list(range(1, len(n2) + 1)) or ref2.GetNumAtoms() != len(n2)):
+            ref2 = None
+        rd = oracle_to(rep, s2, 'aromatic', aro2, n2, ref2)
+        ck.case(('to', smi, 'respelled', s2))
+        ck.count('search-input:respelled')
+        if rd is not None:
+            cans.append((f'respelled as {s2}', rd))
+            oracle_roundtrip_chython(rep, s2, 'aromatic', aro2, rd)
+    for (f1, r1), (f2, r2) in zip(cans, cans[1:]):
+        if not same_stereo_molecule(r1, r2):
+            if undirected(r1) == undirected(r2):
+                rep.counterexample('to-dative-direction-follows-atom-order', 'the direction of a coordinate bond written by to_rdkit_molecule depends on the order of the atoms',
+                                   {'smiles': smi, 'forms': [f1, f2]}, can_smiles(r2), can_smiles(r1), 'RDKit canonical SMILES of two atom orders of one molecule',
+                                   replay_py=py_to(smi, 'aromatic') + (('\n' + py_to(f2[13:], 'aromatic')) if f2.startswith('respelled as ') else ''))
+                continue
+            rep.counterexample(f'to-form-dependent:{smi}|{f2}', f'to_rdkit_molecule gives different molecules for the {f1} and the {f2} form of one molecule',
+                               {'smiles': smi, 'forms': [f1, f2], 'renumbering': mp}, can_smiles(r2), can_smiles(r1), 'RDKit canonical isomeric SMILES + chirality-aware isomorphism',
+                               replay_py=py_to(smi, f1) + '\n' + py_to(smi, f2))
+    for variant, rdv in rd_variants(smi, rng):
+        m2 = oracle_from(rep, smi, variant, rdv, aro)
+        ck.case(('from', smi, variant))
+        if m2 is not None:
+            oracle_roundtrip_rdkit(rep, smi, variant, rdv, m2)
+
+
+def search(ck, n_corpus, extra=()):
+    from rdkit import RDLogger
+    RDLogger.DisableLog('rdApp.*')
+    rng = random.Random(f'{ck.seed}:c20:search')
+    rep = Limited(ck)
+    rep.ck = ck
+    full = ck.tier == 'thorough'
+    pool = [('directed', s) for s in extra] + [('stereo', s) for s in STEREO_SMILES] + [('metal', s) for s in METAL_SMILES] + \
+           [('atoms', s) for s in ATOM_SMILES] + [('bare', s) for s in BARE_SMILES] + [('dative', s) for s in dative_smiles()] + \
+           [('perm', s) for s in (perm_smiles() if full else corpus.sample(perm_smiles(), 40, ck.seed, 'c20sp'))] + \
+           [('corpus', s) for s in corpus.sample(corpus.lipo(), n_corpus, ck.seed, 'c20search')] + \
+           [('corpus-stereo', s) for s in corpus.sample(corpus.stereo_smiles(), n_corpus, ck.seed, 'c20searchs')]
+    seen = set()
+    for kind, smi in pool:
+        if smi in seen:
+            continue
+        seen.add(smi)
+        try:
+            search_one(rep, kind, smi, rng)
+        except Exception as e:           # a crash of the oracle itself must not pass silently
+            import traceback
+            ck.unchecked(f'search oracle crashed on {smi}', traceback.format_exc()[-1500:], [smi])
+            ck.oblige('search oracles ran on every input', False, 'machinery', f'{smi}: {type(e).__name__}: {e}')
+            break
+    # one molecule written donor-first and metal-first: the bridge must give one RDKit molecule
+    from chython.utils.rdkit import to_rdkit_molecule
+    ds = dative_smiles()
+    for s1, s2 in zip(ds[::2], ds[1::2]):
+        res = []
+        for s in (s1, s2):
+            f = normal_forms(s)
+            if f is None:
+                res.append(None)
+                continue
+            try:
+                res.append(can_smiles(to_rdkit_molecule(f[1])))
+            except Exception as e:
+                res.append('raises ' + type(e).__name__)
+        ck.case(('dative-pair', s1, s2), nontrivial=None not in res)
+        if None not in res and res[0] != res[1]:
+            rep.counterexample('to-dative-direction-follows-atom-order', 'the direction of a coordinate bond written by to_rdkit_molecule depends on the order of the atoms',
+                               {'smiles': [s1, s2]}, res[0], res[1], 'one molecule in two atom orders', replay_py=py_to(s1, 'aromatic') + '\n' + py_to(s2, 'aromatic'))
+    ck.extra['search_molecules'] = len(seen)
+    ck.extra['search_counterexample_categories'] = dict(rep.seen)
+
+
+# ---------------------------------------------------------------------------------------------------------------
+
+def run(ck):
+    ck.trusted += ['translators tools/gen_rdkit_tables.py (Python ast: two dict displays, one set display, four enum constants of utils/rdkit.py), '
+                   'tools/gen_stereo.py, tools/gen_elements.py',
+                   'correspondence runner harness/checks/C20.py (taps on SanitizeMol / fix_structure, printers) + harness/coqcases.py',
+                   'CachedMethods shim harness/boot.py', 'CPython 3.12.1',
+                   'RDKit 2026.3: record semantics of its Atom/Bond/Conformer setters and getters (correspondence); SanitizeMol, AssignStereochemistry, '
+                   'canonical SMILES and chirality-aware substructure matching (search only)']
+    ck.assumptions += ['RDKit is not modelled: its element symbols, implicit-hydrogen counts, neighbour order of a chiral centre and choice of double-bond '
+                       'reference atoms are universally quantified in the theorems and observed in the correspondence',
+                       'what SanitizeMol / AssignStereochemistry / fix_structure / fix_stereo do after the transfer is outside the model: search only',
+                       'stereogenicity registries (stereogenic_tetrahedrons, stereogenic_cis_trans, _stereo_cis_trans_centers) are inputs of the model, read from the live molecule',
+                       'coordinates are modelled as opaque 64-bit patterns copied unchanged']
+    ck.extra['rule'] = ('correspondence: hand-made stereo / organometallic / isotope-radical-charge / bare-atom / permuted-substituent molecules, corpus molecules, each in '
+                        'Kekule, aromatic and sparsely renumbered form with random coordinates, RDKit molecules as parsed / hydrogens kept / kekulized / with 2D and 3D conformers, '
+                        'the bridge\'s own outputs fed back, ~190 malformed RDKit and chython molecules; non-trivial = the transfer succeeded / the centre carries a label. '
+                        'search: the same pools plus larger corpus samples through both directions and both round trips; non-trivial = accepted by both toolkits')
+    quick = ck.tier == 'quick'
+    proved = common.standard_proof_steps(ck, translators=['rdkit_tables', 'stereo', 'elements'])
+    good, bad, log, suspects = correspondence(ck, 12 if quick else 150)
+    if not good:
+        # directed search: the property-level oracles on (and around: all forms, renumberings, RDKit variants of) the disagreeing inputs first
+        ck.extra['directed_search_inputs'] = suspects[:50]
+    search(ck, 70 if quick else 1200, extra=suspects[:50])
+    if not good:
+        ck.unchecked('correspondence Rdkit model vs chython/utils/rdkit.py', log[-1500:], [repr(x) for x in bad[:20]])
+    ck.extra['proved'] = proved
+    ck.extra['tied'] = good
